@@ -37,14 +37,14 @@ func init() {
 		loc := x.toLoc(args[0])
 		x.atomicAccess(s, loc)
 		v := x.loadLoc(s, loc)
-		s.events = append(s.events, Event{Name: "atomic.Load", Args: []Val{args[0]}, Res: []Val{v}})
+		s.addEvent(Event{Name: "atomic.Load", Args: []Val{args[0]}, Res: []Val{v}})
 		return v
 	}
 	atomicStore := func(x *Exec, s *State, fn *ssa.Function, args []Val) Val {
 		loc := x.toLoc(args[0])
 		x.atomicAccess(s, loc)
 		x.storeLoc(s, loc, Val{Typ: loc.Typ, L: args[1].L})
-		s.events = append(s.events, Event{Name: "atomic.Store", Args: args})
+		s.addEvent(Event{Name: "atomic.Store", Args: args})
 		return unit()
 	}
 	atomicAdd := func(x *Exec, s *State, fn *ssa.Function, args []Val) Val {
@@ -54,7 +54,7 @@ func init() {
 		nv := wrapFor(loc.Typ, "(+ "+old.L[0]+" "+args[1].L[0]+")")
 		x.storeLoc(s, loc, Val{Typ: loc.Typ, L: []string{nv}})
 		r := Val{Typ: loc.Typ, L: []string{nv}}
-		s.events = append(s.events, Event{Name: "atomic.Add", Args: args, Res: []Val{r}})
+		s.addEvent(Event{Name: "atomic.Add", Args: args, Res: []Val{r}})
 		return r
 	}
 	for _, sz := range []string{"Int32", "Int64", "Uint64", "Uint32"} {
@@ -108,7 +108,7 @@ func init() {
 		s.assume("(<= 0.0 " + r + ")")
 		s.assume("(< " + r + " 1.0)")
 		v := fltVal("(fin " + r + ")")
-		s.events = append(s.events, Event{Name: "math/rand.Float64", Res: []Val{v}})
+		s.addEvent(Event{Name: "math/rand.Float64", Res: []Val{v}})
 		return v
 	}
 	m["math/rand.Intn"] = func(x *Exec, s *State, fn *ssa.Function, args []Val) Val {
@@ -121,7 +121,7 @@ func init() {
 		s.assume("(<= 0 " + r + ")")
 		s.assume("(< " + r + " " + args[0].L[0] + ")")
 		v := intVal(r)
-		s.events = append(s.events, Event{Name: "math/rand.Intn", Args: args, Res: []Val{v}})
+		s.addEvent(Event{Name: "math/rand.Intn", Args: args, Res: []Val{v}})
 		return v
 	}
 
@@ -138,7 +138,7 @@ func init() {
 			}
 		}
 		v := Val{Typ: fn.Signature.Results().At(0).Type(), L: []string{t}}
-		s.events = append(s.events, Event{Name: "time.Now", Res: []Val{v}})
+		s.addEvent(Event{Name: "time.Now", Res: []Val{v}})
 		x.callCount["time.Now"]++
 		x.bindCall("time.Now", v)
 		return v
@@ -171,7 +171,7 @@ func init() {
 			}
 		}
 		v := Val{Typ: tt, L: []string{r}}
-		s.events = append(s.events, Event{Name: "time.NewTimer", Args: args, Res: []Val{v}})
+		s.addEvent(Event{Name: "time.NewTimer", Args: args, Res: []Val{v}})
 		return v
 	}
 	m["time.NewTicker"] = func(x *Exec, s *State, fn *ssa.Function, args []Val) Val {
@@ -182,11 +182,11 @@ func init() {
 		pt := tt.(*types.Pointer)
 		x.heapStore(s, typeKey(pt.Elem())+".C", "Int", r, c)
 		v := Val{Typ: tt, L: []string{r}}
-		s.events = append(s.events, Event{Name: "time.NewTicker", Args: args, Res: []Val{v}})
+		s.addEvent(Event{Name: "time.NewTicker", Args: args, Res: []Val{v}})
 		return v
 	}
 	m["(*time.Timer).Stop"] = func(x *Exec, s *State, fn *ssa.Function, args []Val) Val {
-		s.events = append(s.events, Event{Name: "(*time.Timer).Stop", Recv: &args[0]})
+		s.addEvent(Event{Name: "(*time.Timer).Stop", Recv: &args[0]})
 		return boolVal(x.D.fresh("stopped", "Bool"))
 	}
 
@@ -202,7 +202,7 @@ func init() {
 			if len(args) > 0 {
 				recv = &args[0]
 			}
-			s.events = append(s.events, Event{Name: name, Recv: recv, Args: args})
+			s.addEvent(Event{Name: name, Recv: recv, Args: args})
 			return unit()
 		}
 	}
@@ -218,7 +218,7 @@ func init() {
 	nonNilErr := func(x *Exec, s *State, fn *ssa.Function, args []Val) Val {
 		v := x.freshVal(s, fn.Signature.Results().At(0).Type(), "err")
 		s.assume("(not (= " + v.L[0] + " 0))")
-		s.events = append(s.events, Event{Name: fnName(fn), Args: args, Res: []Val{v}})
+		s.addEvent(Event{Name: fnName(fn), Args: args, Res: []Val{v}})
 		return v
 	}
 	m["fmt.Errorf"] = nonNilErr
@@ -227,7 +227,7 @@ func init() {
 		// status.Error(codes.OK, ...) returns nil; any other code a non-nil error
 		v := x.freshVal(s, fn.Signature.Results().At(0).Type(), "statuserr")
 		s.assume("(= (= " + v.L[0] + " 0) (= " + args[0].L[0] + " 0))")
-		s.events = append(s.events, Event{Name: "status.Error", Args: args, Res: []Val{v}})
+		s.addEvent(Event{Name: "status.Error", Args: args, Res: []Val{v}})
 		return v
 	}
 	pureStr := func(name, sig, rsort string, rt types.Type) modelFn {
